@@ -50,7 +50,7 @@ class C20(Check):
     chunk = 600
     rule = (
         "cases: operation/call histories of up to 9 steps over 2 endpoints x 3 methods (one never patched): add(result | error | callback | callback that raises, patches carrying an id of their own, "
-        "once on/off), replace(existing index), remove(endpoint, method) / remove(endpoint) (existing only), reset, call (positional / named / "
+        "once on/off), replace(existing index, counted from the front or - negative - from the back), remove(endpoint, method) / remove(endpoint) (existing only), reset, call (positional / named / "
         "absent params, ids incl. 0 and '' via hand-built request texts), batch call (1..3 elements incl. unpatched methods), notifications to endpoints without patches, plus structured scenarios (2..3 patches on one pair, a replace at a chosen index, then a full rotation of calls; two methods patched on one endpoint of which one is used up or removed); passthrough "
         "on/off; sync and async targets (harness client classes patched through PjRpcMocker(target=...); the shipped PjRpcRequestsMocker "
         "shortcut for a share of the sync runs). Oracle: a model endpoint -> (method -> list of patches) + recorded calls: a call is answered "
@@ -67,7 +67,7 @@ class C20(Check):
         "a second PjRpcMocker patching another client class is alive during every case (with patches for the same endpoints): mockers are independent objects",
     ]
     trusted_base = ['deque model in checks/c20.py']
-    required_classes = ['op/add', 'op/replace', 'op/remove-method', 'op/remove-endpoint', 'op/reset', 'op/call', 'op/batch', 'patch/result',
+    required_classes = ['op/add', 'op/replace', 'op/replace/index-from-the-back', 'op/remove-method', 'op/remove-endpoint', 'op/reset', 'op/call', 'op/batch', 'patch/result',
                         'patch/error', 'patch/callback', 'once', 'round-robin>=2', 'passthrough/on', 'passthrough/off', 'target/sync',
                         'target/async', 'target/requests', 'unpatched-method', 'unpatched-endpoint', 'id/0', 'callback-raised', 'op/notify-unpatched-endpoint', 'op/notify-patched-method', 'patch/own-id']
 
@@ -87,7 +87,7 @@ class C20(Check):
         s_op = st.one_of(
             st.builds(lambda e, m, p, o: ['add', e, m, p, o], s_ep, s_m, s_patch, st.booleans()),
             st.builds(lambda e, m, p, o: ['add', e, m, p, o], s_ep, s_m, s_patch, st.booleans()),
-            st.builds(lambda e, m, i, p, o: ['replace', e, m, i, p, o], s_ep, s_m, st.integers(0, 3), s_patch, st.booleans()),
+            st.builds(lambda e, m, i, p, o: ['replace', e, m, i, p, o], s_ep, s_m, st.sampled_from([0, 1, 2, 3, 0, 1, -1, -2, -3]), s_patch, st.booleans()),
             st.builds(lambda e, m: ['remove', e, m], s_ep, st.sampled_from([0, 1, None])),
             st.just(['reset']),
             st.builds(lambda e, m, p, i: ['call', e, m, p, i], s_ep, st.sampled_from([0, 0, 0, 1, 2]), s_params, s_id),
@@ -104,7 +104,7 @@ class C20(Check):
             ops += [['call', e, m, [n], n] for n in range(len(patches) + 2)]
             return ops
         s_scenario = st.builds(scenario, s_ep, st.sampled_from([0, 1]), st.lists(s_patch, min_size=2, max_size=3),
-                               st.lists(st.sampled_from([False, False, True]), min_size=3, max_size=3), st.integers(0, 2), s_patch, st.booleans(),
+                               st.lists(st.sampled_from([False, False, True]), min_size=3, max_size=3), st.sampled_from([0, 1, 2, -1, -2]), s_patch, st.booleans(),
                                st.sampled_from(['replace', 'replace', 'remove']))
         # two methods patched on one endpoint; one of them is used up (once) or removed; the other must keep answering
         def scenario2(e, p1, p2, how, extra_call):
@@ -262,7 +262,10 @@ class C20(Check):
                     plist = model.get(ep, {}).get(m)
                     if not plist:
                         continue
-                    idx = op[3] % len(plist)
+                    # an index into the patches of the pair, counted from the front (0, 1, ..) or from the back (-1 = the latest patch)
+                    idx = op[3] % len(plist) if op[3] >= 0 else -((-op[3] - 1) % len(plist)) - 1
+                    if idx < 0:
+                        classes.add('op/replace/index-from-the-back')
                     serial[0] += 1
                     mocker.replace(ep, m, once=op[5], idx=idx, **make_patch(op[4], serial[0]))
                     plist[idx] = {'patch': op[4], 'once': op[5], 'serial': serial[0]}
